@@ -162,7 +162,11 @@ def impl_groupby(case, t, cols, n, nans):
     if grp not in G.keys():
         return {'status': 'ok', 'obs': ['ERR', 'nogrp'], 'viol': 'groupby returned no grp column'}
     subs = list(G[grp])
-    st2, UG = call(lambda: G.ungroup() if grp == 'grp' else G.ungroup(grp))
+    msg2 = ''
+    try:
+        st2, UG = 'ok', (G.ungroup() if grp == 'grp' else G.ungroup(grp))
+    except Exception as e:
+        st2, UG, msg2 = err_name(e), None, ': ' + str(e)[:100]
     # the key table, column by column (G[[...]] is not used: on /repo d[['columns']] loses a column called 'columns')
     KT = sorted([[str(c), [V.canon(v, nans) for v in G[c]]] for c in by])
     obs = [KT, [ctable(s, nans) for s in subs], ctable(UG, nans) if st2 == 'ok' else ['ERR', st2]]
@@ -183,7 +187,7 @@ def impl_groupby(case, t, cols, n, nans):
             viol = 'group of key %r is %r, the rows with that key are %r' % (gkeys[g], dict(subs[g]), [[t[c][i] for c in other] for i in members])
     if viol is None:
         if st2 != 'ok':
-            viol = 'ungroup raised %s' % st2
+            viol = 'ungroup raised %s%s' % (st2, msg2)
         elif sorted(UG.keys()) != sorted(cols) or len(UG) != n:
             viol = 'ungroup(groupby) has shape %s x %s, the original %s x %s' % (len(UG), list(UG.keys()), n, cols)
         else:
@@ -272,14 +276,13 @@ def share_nan(cells):
     return [['nan', 0] if (v is not None and v[0] == 'nan') else v for v in cells]
 
 
-XNAMES = ['name', 'date', 'key1', 'columns', 'data']
+XNAMES = ['name', 'date', 'key1', 'columns', 'data', 'self']
 YSUB = ['am', 'e', 'a', 'at', 'nam', 'te', 'ey', 'col', 'um']             # substrings of the x column names (an unpivot that tests `label in x` on a string drops them)
 def rand_pivot(rng, tier):
     q = tier == 'quick'
     x = rng.sample(XNAMES, rng.choice([1, 1, 1, 2]))
-    # y / z / value columns may also be called like the constructor's parameters.  NOT y = 'columns': on the unchanged /repo
-    # d[['columns']] loses the column (dictattr.__getitem__ builds type(self)(**{...})), so xyz(x, 'columns', z) raises KeyError - reported
-    yn = rng.choice(['yy', 'yy', 'yy', 'data']); zn = rng.choice(['zz', 'zz', 'zz', 'columns', 'data'])
+    # x / y / z / value columns may also be called like the constructor's parameters or `self` (y = 'columns' raised KeyError before /repo 1210486)
+    yn = rng.choice(['yy', 'yy', 'yy', 'data', 'columns', 'self']); zn = rng.choice(['zz', 'zz', 'zz', 'columns', 'data', 'self'])
     if yn in x or yn == zn: yn = 'yy'
     if zn in x: zn = 'zz'
     wn = rng.choice(['w', 'columns', 'data'])
@@ -347,6 +350,10 @@ def gen_cases(rng, tier):
                 by = rng.sample(names, rng.randrange(1, len(names)))
             if r > 0.97 and n > 0:
                 by = []                                             # no keys given: all columns (listby: distinct rows; groupby: ValueError)
+            if rng.random() < 0.08 and 'self' not in names:      # a column literally named `self` (as a key: known finding for ungroup)
+                o = rng.choice(names)
+                cols = [['self' if x == o else x, cells] for x, cells in cols]; by = ['self' if x == o else x for x in by]
+                names = [x for x, _ in cols]
             c = {'kind': kind, 'cols': cols, 'by': by}
             if by and rng.random() < 0.2: c['bylist'] = True
             if kind == 'groupby' and rng.random() < 0.2: c['grp'] = 'g2'
